@@ -141,7 +141,7 @@ def transmit(rng, parent_haps, nvar, recomb_prob):
     return alleles, srcs
 
 
-def read_from_haplotype(refseq, variants, hap_alleles, a, b, edge_ins=False):
+def read_from_haplotype(refseq, variants, hap_alleles, a, b, edge_ins=False, ins_end=None):
     """Exact copy of the haplotype over reference interval [a,b): returns (sequence, cigartuples) or None when an
     end falls where a valid CIGAR cannot start/end (inside or adjacent to an indel carried by the haplotype)."""
     seq = []
@@ -187,6 +187,16 @@ def read_from_haplotype(refseq, variants, hap_alleles, a, b, edge_ins=False):
                     add(1, len(v.alt) - 1)
                     pos = b
                     continue
+                if ins_end == "anchor" and v.pos == b - 1:
+                    break  # the read ends with the anchor base; the inserted bases lie behind its end
+                if ins_end is not None and ins_end.startswith("partial") and v.pos == b - 1 and len(v.alt) >= 3:
+                    k_ = int(ins_end.split(":")[1]) % (len(v.alt) - 2) + 1  # the read ends inside the inserted bases
+                    seq.append(refseq[pos : v.pos + 1])
+                    add(0, v.pos + 1 - pos)
+                    seq.append(v.alt[1 : 1 + k_])
+                    add(1, k_)
+                    pos = b
+                    continue
                 return None  # read would end with the anchor; ambiguous whether the insertion follows
             seq.append(refseq[pos : v.pos + 1])
             add(0, v.pos + 1 - pos)
@@ -205,7 +215,7 @@ def read_from_haplotype(refseq, variants, hap_alleles, a, b, edge_ins=False):
     if pos < b:
         seq.append(refseq[pos:b])
         add(0, b - pos)
-    if not cig or (cig[0][0] != 0 and not edge_ins) or (cig[-1][0] != 0 and not edge_ins) or cig[0][0] == 2 or cig[-1][0] == 2:
+    if not cig or (cig[0][0] != 0 and not edge_ins) or (cig[-1][0] != 0 and not (edge_ins or ins_end)) or cig[0][0] == 2 or cig[-1][0] == 2:
         return None
     return "".join(seq), cig
 
@@ -431,7 +441,10 @@ def simulate(rng, tmp, p):
                     if end_policy == "clean" and any(lo <= x < hi or lo <= y - 1 < hi for lo, hi in multi):
                         ok = False
                         break
-                    r = read_from_haplotype(refseq, vs, sim.haps[c][s][h], x, y, edge_ins=rng.random() < p.get("edge_ins", 0.0))
+                    ie = None
+                    if p.get("ins_end") and rng.random() < p["ins_end"]:
+                        ie = "anchor" if rng.random() < 0.5 else "partial:%d" % rng.randrange(1000)
+                    r = read_from_haplotype(refseq, vs, sim.haps[c][s][h], x, y, edge_ins=rng.random() < p.get("edge_ins", 0.0), ins_end=ie)
                     if r is None:
                         ok = False
                         break
